@@ -1,5 +1,6 @@
 import Model.Uuid
 import Model.UuidDecode
+import Model.UuidGen
 import Driver.Util
 namespace Driver.C19
 open Util
@@ -70,6 +71,16 @@ def quoted (bs : List UInt8) : List UInt8 := 34 :: bs ++ [34]
   gen <clockSeq> <hw> <sec> <nsec>     → uuid newClockSeq
   rand <hex16>                         → stamped uuid
   conc <goroutines> <each>             → distinct (theorem C19_unique_partial, total ≤ 16384)
+  burst <c0> <g> <n> <chunk> <hw>      → ok ctr=<counter afterwards>: g goroutines x n calls of TimeUUID() from counter c0, the
+                                         harness reading the wall clock around every chunk of calls: every result is a v1 / RFC 4122
+                                         UUID of node hw whose timestamp is the 100 ns tick of a reading inside its interval
+                                         (C19_timeuuid_sandwich), the clock fields are those of c0+1 … c0+g*n (C19_genrun_clock_fields),
+                                         the counter ends at c0+g*n (C19_genrun_counter); under these facts a repeated result is exactly
+                                         the excluded condition of KF-C19-1 (C19_timeuuid_dup_iff)
+  genrun <c0> <hw> <sec> <nsec> <n> <every> <stepns>
+                                       → distinct|dup:<i>,<j> first=<uuid> last=<uuid> ctr=<counter>: n calls of UUIDFromTime under a
+                                         controlled clock that moves on by stepns ns every `every` calls (C19_genrun_distinct:
+                                         every ≤ 16384 and stepns ≥ 100 ⇒ distinct); genrunx = the same outside that hypothesis
   utext <prev16> <text>                → ok|err <destination afterwards>   (UnmarshalText on a destination holding prev)
   ujson <prev16> <data>                → ok|err <destination afterwards>   (UnmarshalJSON called directly)
   jsonu <kind> <prev16> <doc> <lit>    → json.Unmarshal of doc into a destination holding prev; lit = the literal
@@ -190,6 +201,19 @@ def step (_ : Unit) (ws : List String) : Unit × String :=
           else "MISMATCH"
         else "bad-op"
       | _, _ => "bad-op"
+  | ["burst", c, g, n, _, _] => match natArg c, natArg g, natArg n with
+      | some c, some g, some n => s!"ok ctr={Uuid.genCtr c (g * n)}"
+      | _, _, _ => "bad-op"
+  | [op, c, hw, s, ns, n, ev, st] =>
+      if op != "genrun" && op != "genrunx" then "bad-op" else
+      match natArg c, parseHex hw, intArg s, natArg ns, natArg n, natArg ev, natArg st with
+      | some c, some hw, some s, some ns, some n, some ev, some st =>
+        let us := Uuid.genRun hw c (Uuid.steppedReadings s ns ev st n)
+        let verdict := match Uuid.firstDup us with
+          | some (i, j) => s!"dup:{i},{j}"
+          | none => "distinct"
+        s!"{verdict} first={toHex (us.headD [])} last={toHex (us.getLastD [])} ctr={Uuid.genCtr c n}"
+      | _, _, _, _, _, _, _ => "bad-op"
   | ["conc", g, n] => match natArg g, natArg n with
       | some g, some n => if g * n ≤ 16384 then "distinct" else "unconstrained"
       | _, _ => "bad-op"
